@@ -278,6 +278,7 @@ def rust_str(s):
 def render_enum(decl, cfg, name='E', derives='Clone, Copy, EnumTools', extra_attrs=(), sorted_attr=None):
     lines = ['#[derive(%s)]' % derives]
     lines += list(extra_attrs)
+    lines += list(decl.get('enum_attrs', []))
     if sorted_attr:
         lines.append(sorted_attr)
     if cfg is not None:
@@ -286,6 +287,8 @@ def render_enum(decl, cfg, name='E', derives='Clone, Copy, EnumTools', extra_att
     vis = decl['vis']
     lines.append('%senum %s {' % (vis + ' ' if vis else '', name))
     for v in decl['variants']:
+        for a in v.get('attrs', []):
+            lines.append('    ' + a)
         if v['rename'] is not None:
             lines.append('    #[enum_tools(rename = %s)]' % rust_str(v['rename']))
         if v['lit'] is None:
